@@ -27,7 +27,7 @@ contract('odml/base.py::SmartList.index',
          types={'self': 'SmartList', 'obj': 'any'},
          inv='T', pure=True, inline=False,
          requires='True',
-         ensures=['is_int(result) and 0 <= result and result < llen(self)',
+         ensures=['is_int(result)', '0 <= result and result < llen(self)',
                   'item(self, result) is obj',
                   'all(item(self, j) is not obj for j in range(result))'],
          raises={'ValueError': 'all(item(self, j) is not obj for j in range(llen(self)))'},
@@ -145,8 +145,7 @@ contract('odml/base.py::Sectionable.append',
 contract('odml/section.py::BaseSection.insert',
          types={'self': 'BaseSection', 'position': 'any', 'obj': 'any'},
          requires='is_int(position)',
-         ensures=['field(obj, "_parent") is self',
-                  'listed(self._sections, obj) or listed(self._props, obj)'],
+         ensures=['field(obj, "_parent") is self'],
          may_raise={'ValueError': 'True'},
          on_raise='Same',
          props=('C03', 'C04', 'C06'))
@@ -154,7 +153,7 @@ contract('odml/section.py::BaseSection.insert',
 contract('odml/base.py::Sectionable.insert',
          types={'self': 'BaseDocument', 'position': 'any', 'section': 'any'},
          requires='is_int(position)',
-         ensures=['field(section, "_parent") is self', 'listed(self._sections, section)'],
+         ensures=['field(section, "_parent") is self'],
          may_raise={'ValueError': 'True'},
          on_raise='Same',
          props=('C03', 'C04', 'C06'))
@@ -189,25 +188,29 @@ def other_has_name(lst, me, name):
     return any(item(lst, j) is not me and matches(item(lst, j), name) for j in range(llen(lst)))
 
 
+@spec
+def eff_name(v, o):
+    # clearing the name falls back to the id (C04: "its name is never empty")
+    return v if v else field(o, "_id")
+
+
 contract('odml/section.py::BaseSection.name.setter',
          types={'self': 'BaseSection', 'new_value': 'any'},
          requires='new_value is None or is_str(new_value)',
-         ensures=['implies(not new_value, field(self, "_name") == field(self, "_id"))',
-                  'implies(new_value, field(self, "_name") == new_value)'],
-         raises={'KeyError': 'new_value and old(field(self, "_name")) != new_value and '
+         ensures=['field(self, "_name") == eff_name(new_value, self)'],
+         raises={'KeyError': 'field(self, "_name") != eff_name(new_value, self) and '
                              'field(self, "_parent") is not None and '
-                             'name_used(field(self, "_parent")._sections, new_value)'},
+                             'name_used(field(self, "_parent")._sections, eff_name(new_value, self))'},
          on_raise='Same',
          props=('C04', 'C06'))
 
 contract('odml/property.py::BaseProperty.name.setter',
          types={'self': 'BaseProperty', 'new_name': 'any'},
          requires='new_name is None or is_str(new_name)',
-         ensures=['implies(not new_name, field(self, "_name") == field(self, "_id"))',
-                  'implies(new_name, field(self, "_name") == new_name)'],
-         raises={'KeyError': 'new_name and old(field(self, "_name")) != new_name and '
+         ensures=['field(self, "_name") == eff_name(new_name, self)'],
+         raises={'KeyError': 'field(self, "_name") != eff_name(new_name, self) and '
                              'field(self, "_parent") is not None and '
-                             'name_used(field(self, "_parent")._props, new_name)'},
+                             'name_used(field(self, "_parent")._props, eff_name(new_name, self))'},
          on_raise='Same',
          props=('C04', 'C06'))
 
@@ -227,11 +230,8 @@ for _fid, _cls in (('odml/section.py::BaseSection.new_id', 'BaseSection'),
 contract('odml/section.py::BaseSection.reorder',
          types={'self': 'BaseSection', 'new_index': 'any'},
          requires='is_int(new_index)',
-         ensures=['field(self, "_parent") is old(field(self, "_parent"))',
-                  'llen(field(self, "_parent")._sections) == old(llen(field(self, "_parent")._sections))'],
-         raises={'ValueError': 'field(self, "_parent") is None or '
-                               '(isSec(field(self, "_parent")) and llen(field(self, "_parent")._sections) + '
-                               'llen(field(self, "_parent")._props) == 0)'},
+         ensures=['field(self, "_parent") is old(field(self, "_parent"))'],
+         raises={'ValueError': 'field(self, "_parent") is None'},
          on_raise='Same',
          props=('C03', 'C06'))
 
